@@ -7,8 +7,8 @@ from concurrent.futures import ThreadPoolExecutor
 import vlib
 import p_make
 
-C14_FIELDS = {"at", "atmax", "hat", "iter"}       # refusal beyond size(), iteration inside the bounds
-C15_FIELDS = {"size", "empty", "steps", "hsize", "hat", "iter"}
+C14_FIELDS = {"at", "atmax", "hat", "iter", "riter", "post"}       # refusal beyond size(), iteration inside the bounds
+C15_FIELDS = {"size", "empty", "steps", "hsize", "hat", "iter", "riter", "post"}
 
 
 def mine(pid, field):
